@@ -130,6 +130,42 @@ def run(ctx):
             if not sweep.same(got, base):
                 ctx.violation("corpus-perturbation-changes-dict", "a corpus file loads differently after perturbing white space / comments between tokens", {"text": p, "original": t})
     ctx.count("corpus_perturbations", n_pert)
+    # ---- the token-retyping hook (bare word after SYMBOL, GRID after NAME) under every spelling of the keywords:
+    # the whole text in upper / lower / title / alternating / random case, keyword by keyword
+    def spell(word, mode):
+        if mode == "upper":
+            return word.upper()
+        if mode == "lower":
+            return word.lower()
+        if mode == "title":
+            return word[:1].upper() + word[1:].lower()
+        if mode == "alt":
+            return "".join(c.upper() if i % 2 == 0 else c.lower() for i, c in enumerate(word))
+        if mode == "alt2":
+            return "".join(c.lower() if i % 2 == 0 else c.upper() for i, c in enumerate(word))
+        return "".join(c.upper() if rng.random() < 0.5 else c.lower() for c in word)
+    hook_templates = [["STYLE", "SYMBOL", "=circle", "SIZE", "=5", "END"], ["STYLE", "SIZE", "=5", "SYMBOL", "=circle", "END"],
+                      ["CLASS", "STYLE", "SYMBOL", "=star", "COLOR", "=1 2 3", "END", "END"], ["CLASS", "SYMBOL", "=mysym", "NAME", "='x'", "END"],
+                      ["LAYER", "NAME", "=grid", "TYPE", "=POINT", "END"], ["MAP", "LAYER", "NAME", "=grid", "STATUS", "=ON", "END", "END"],
+                      ["MAP", "SYMBOL", "NAME", "=grid", "TYPE", "=ELLIPSE", "END", "END"]]
+    n_hook = 0
+    for tpl in hook_templates:
+        ref_text = " ".join(w[1:] if w.startswith("=") else w for w in tpl)
+        try:
+            ref = docs.plain(sweep.fast_loads(ref_text))
+        except Exception:
+            continue                                  # not a valid upper-case document: outside the quantifier
+        for mode in ("lower", "title", "alt", "alt2", "rand", "rand", "rand"):
+            t = " ".join(w[1:] if w.startswith("=") else spell(w, mode) for w in tpl)
+            n_hook += 1
+            ctx.note_case(t)
+            try:
+                got = docs.plain(sweep.fast_loads(t))
+                if not sweep.same(got, ref):
+                    ctx.violation("surface-changes-dict:case:hook", "keyword case changes the dictionary: %r loads as %r, %r as %r" % (t, got, ref_text, ref), {"text": t, "reference": ref_text})
+            except Exception as ex:
+                ctx.violation("surface-rejected:case:" + type(ex).__name__, "a case variant of an accepted document is rejected: %r (%s)" % (t, str(ex)[:120]), {"text": t, "reference": ref_text})
+    ctx.count("hook_case_probes", n_hook)
     # ---- unpadded separators: explicit probes (the separator clause is known to fail here)
     probes = [("LAYER DATA a/b/* c */ END", "LAYER DATA a/b END", "sep:path-swallows-c-comment"),
               ("LAYER NAME foo# c\n END", "LAYER NAME foo END", "sep:hash-after-bareword"),
